@@ -60,6 +60,24 @@ Theorem C43_loop_dead_only_after_failed_ping : forall tr s,
 Proof. exact loop_dead_iff_ping_failed. Qed.
 Print Assumptions C43_loop_dead_only_after_failed_ping.
 
+(* handlePong closes a call's channel at most once over all event sequences (a second close of
+   the same channel would panic the read path). *)
+Theorem C43_no_double_close : forall tr s k c,
+  prun pinit tr = Some s -> nth_error (calls s) k = Some c -> (cown c <= 1)%nat.
+Proof. exact no_double_close. Qed.
+Print Assumptions C43_no_double_close.
+
+(* Documented consequence of drawing ping ids at random without a collision check (the code
+   says "Probably we should check for collisions here"): with EQUAL ids, call 0's return
+   (removePong deletes by id) removes the entry call 1 registered, so call 1's own pong no longer
+   reaches it and it can only end with its context.  The safety statements above are unaffected
+   (nil still needs an own pong); this is a liveness loss, outside the property as stated, with
+   probability 2^-64 per pair of concurrent pings. *)
+Example C43_equal_ids_strand_second_call :
+  exists s c, prun pinit [EStart 7 false; EStart 7 false; EWrite 0 true; EWrite 1 true; ECtx 0; ERet 0 false; EPong 7] = Some s /\
+              pmap s = [] /\ nth_error (calls s) 1 = Some c /\ cstage c = Sent /\ cclosed c = false.
+Proof. exact equal_ids_strand. Qed.
+
 (* non-vacuity: a ping completed by its own pong after a foreign and before a duplicated one;
    a loop killed by a missed pong *)
 Example C43_nil_reachable :
